@@ -153,10 +153,17 @@ pub fn stream_body(out: &mut impl Write, seed: u64, budget: usize) {
         let n = VARIANT_BUCKETS[vi] / 4;
         let a = match rng.below(6) { 0 => vec![*rng.pick(&[0u8, 0x55, 0xaa, 0xff]); n], _ => rng.bytes(n) };
         let b = match rng.below(4) { 0 => a.clone(), 1 => near(&mut rng, &a), 2 => vec![*rng.pick(&[0u8, 0x55, 0xaa, 0xff]); n], _ => rng.bytes(n) };
+        let mut seen: Vec<(&str, u32)> = Vec::new();
         for be in BACKENDS {
             if let Some(d) = body_dist(vi, be, &a, &b) {
                 writeln!(out, "bodyd {} {} {} {} => {}", vi, be, hex(&a), hex(&b), d).unwrap();
+                seen.push((be, d));
             }
+        }
+        // direct oracle (C07): every back end compiled into this binary gives the same distance
+        if seen.iter().any(|x| x.1 != seen[0].1) {
+            writeln!(out, "ORACLE C07 body-distance-backends-disagree bodyd {} {} {} => {}", vi, hex(&a), hex(&b),
+                     seen.iter().map(|x| format!("{}={}", x.0, x.1)).collect::<Vec<_>>().join(",")).unwrap();
         }
     }
 }
